@@ -159,10 +159,16 @@ def main():
         ck.traces_validated += 1
 
     # --------------------------------------------------- sampled aggregates
+    # (baths handed over as tabulated values that declare the same
+    # reorganisation energy and temperature on every site: switched on for
+    # every third system below)
+    tabulated = [False]
+
     def build(N, Ecm, Jcm, dips, reorg, cort, Nt=600, dt=2.0, scale=1.0,
               perm=None):
         ta = qr.TimeAxis(0.0, Nt, dt)
         order = list(range(N)) if perm is None else list(perm)
+        cfs = []
         with qr.energy_units("1/cm"):
             mols = []
             for k in order:
@@ -171,6 +177,12 @@ def main():
                 cf = qr.CorrelationFunction(ta, dict(
                     ftype="OverdampedBrownian", reorg=float(reorg[k]),
                     cortime=float(cort[k]), T=300.0, matsubara=20))
+                if tabulated[0]:
+                    cf = qr.CorrelationFunction(ta, dict(
+                        ftype="Value-defined", reorg=float(reorg[0]),
+                        T=300.0), values=numpy.array(cf.data,
+                                                     dtype=complex))
+                cfs.append(numpy.array(cf.data, dtype=complex))
                 m.set_transition_environment((0, 1), cf)
                 mols.append(m)
             ag = qr.Aggregate(mols)
@@ -179,6 +191,8 @@ def main():
                     ag.set_resonance_coupling(a, b, float(
                         Jcm[order[a], order[b]]))
         ag.build()
+        # the functions the sites were given (site order of this aggregate)
+        ag._verif_cfs = cfs
         return ag, ta
 
     def spectrum(ag, ta, raw=True, tensor=False):
@@ -220,7 +234,7 @@ def main():
             d2 = float(numpy.dot(dvec, dvec))
             ct = numpy.zeros(len(t), dtype=complex)
             for k in range(N):
-                ct += (SS[k + 1, a] ** 4) * numpy.array(sbi.CC.get_coft(k, k))
+                ct += (SS[k + 1, a] ** 4) * ag._verif_cfs[k]
             lam = numpy.concatenate([[0], numpy.cumsum(
                 (ct[1:] + ct[:-1]) / 2) * dt])
             g = numpy.concatenate([[0], numpy.cumsum(
@@ -243,7 +257,11 @@ def main():
         dips = rng.randn(N, 3)
         reorg = rng.uniform(20, 60, size=N)
         cort = rng.uniform(50, 120, size=N)
-        rp = dict(kind="aggregate", seed=ck.seed, system=s, N=N)
+        tabulated[0] = (s % 3 == 2)
+        if tabulated[0]:
+            reorg = numpy.full(N, reorg[0])
+        rp = dict(kind="aggregate", seed=ck.seed, system=s, N=N,
+                  tabulated_baths=bool(tabulated[0]))
         with ck.guarded("fourier-integral", "aggregate", rp, rp):
             # even and odd lengths of the time axis
             Nt_s = (600, 601, 451, 750)[s % 4]
